@@ -1,14 +1,91 @@
 """C17 -- action outcome classification, Task.execute, capture, restoration of sys.stdout/stderr.
 
-Correspondence: the real PythonAction / CmdAction / Task.execute are run on generated inputs and
-their observable outcome is compared with Model/Action.v evaluated inside Coq.
+Correspondence: the real PythonAction / CmdAction / Task.execute / Runner / MThreadRunner / DoitMain
+are run on generated inputs and their observable outcome is compared with Model/Action.v evaluated
+inside Coq.
+
+Every way a python-action can end is covered, in particular a callable that raises a BaseException
+that is not an Exception (sys.exit(), KeyboardInterrupt, GeneratorExit, a user subclass) after
+having written some output: the exception must leave `execute` (outcome 3 = propagates), the
+process-wide sys.stdout/sys.stderr must be the very objects they were before, and self.out/self.err
+must hold what was written.
+
+Encodings (lists of ints):
+  outcome            0 ok / 1 TaskFailed / 2 TaskError / 3 a non-Exception BaseException escaped / 98 anything else
+  stream in a cell   0 original object, 1+i Writer of execution i, 500+k sink object k, 999 unknown
+  self.out/self.err  [-1] = None, else -2 followed by the chunk ids
+  observation of one channel (Action.observe): cell, the attribute of every execution id, -3, chunks
+                     that reached the original stream, then per sink -4 and its chunks
+A chunk is a self-delimiting piece of text (`text(j)`); -7 stands for text that is not a sequence of chunks.
 """
-import io, itertools, os, signal, sys, threading
+import io, itertools, os, re, signal, sys, threading
 import common
 from common import Outcome
 
-PRE = 'From DoitV Require Import Base Action.\nOpen Scope Z_scope.\n'
+PRE = ('From DoitV Require Import Base Action.\nOpen Scope Z_scope.\n'
+       'Definition obs2 (ids so se : list nat) (ops : list sop) : list Z :=\n'
+       '  observe ids so (srun false false ops) ++ observe ids se (srun false true ops).\n')
 AOUT = {'ok': 0, 'failed': 1, 'error': 2}
+
+
+class EscapingBase(BaseException):
+    """a user exception that is not an Exception"""
+
+
+BASE_ENDS = ('exit', 'exit0', 'exitmsg', 'kbd', 'base', 'genexit')
+OK_ENDS = ('none', 'true', 'str', 'dict')
+END_TAG = {'none': 'RNone', 'true': 'RTrue', 'false': 'RFalse', 'str': 'RStr', 'dict': 'RDict', 'other': 'ROther',
+           'raise': 'RRaises', 'tfailed': 'RTaskFailed', 'terror': 'RTaskError'}
+END_TAG.update({b: 'RBaseExc' for b in BASE_ENDS})
+END_CLASS = {'exit': SystemExit, 'exit0': SystemExit, 'exitmsg': SystemExit, 'kbd': KeyboardInterrupt,
+             'base': EscapingBase, 'genexit': GeneratorExit}
+
+
+def end_outcome(kind):
+    """documented outcome of a python-action whose callable ends this way"""
+    if kind in OK_ENDS:
+        return 0
+    if kind in ('false', 'tfailed'):
+        return 1
+    if kind in BASE_ENDS:
+        return 3
+    return 2
+
+
+def finish(kind):
+    """end a callable the way `kind` says"""
+    from doit.exceptions import TaskFailed, TaskError
+    if kind == 'none':
+        return None
+    if kind == 'true':
+        return True
+    if kind == 'false':
+        return False
+    if kind == 'str':
+        return 'text'
+    if kind == 'dict':
+        return {'a': 1}
+    if kind == 'other':
+        return 7
+    if kind == 'tfailed':
+        return TaskFailed('f')
+    if kind == 'terror':
+        return TaskError('e')
+    if kind == 'raise':
+        raise RuntimeError('boom')
+    if kind == 'exit':
+        sys.exit(3)
+    if kind == 'exit0':
+        sys.exit(0)
+    if kind == 'exitmsg':
+        sys.exit('bye')
+    if kind == 'kbd':
+        raise KeyboardInterrupt()
+    if kind == 'base':
+        raise EscapingBase('b')
+    if kind == 'genexit':
+        raise GeneratorExit()
+    raise AssertionError(kind)
 
 
 def classify_ret(ret):
@@ -20,6 +97,11 @@ def classify_ret(ret):
     if isinstance(ret, TaskError):
         return 2
     return 99
+
+
+def classify_exc(e):
+    """an exception that left execute: 3 = a BaseException that is not an Exception"""
+    return 98 if isinstance(e, Exception) else 3
 
 
 class Streams:
@@ -36,6 +118,132 @@ class Streams:
 
     def restored(self):
         return self.after[0] is self.out and self.after[1] is self.err
+
+
+def text(j):
+    return 'k%d.%s\n' % (j, 'x' * (j % 3))
+
+
+CHUNK = re.compile(r'k(\d+)\.(x*)\n')
+
+
+def dec(s):
+    """a concatenation of chunk texts -> chunk ids ([-7] if it is not one)"""
+    ids, pos = [], 0
+    while pos < len(s):
+        m = CHUNK.match(s, pos)
+        if not m or text(int(m.group(1))) != m.group(0):
+            return [-7]
+        ids.append(int(m.group(1)))
+        pos = m.end()
+    return ids
+
+
+def dec_loose(s):
+    """the chunks found in a text that may also hold other lines (messages of the reporter)"""
+    return [int(m.group(1)) for m in CHUNK.finditer(s) if text(int(m.group(1))) == m.group(0)]
+
+
+def attr_z(val):
+    return [-1] if val is None else [-2] + dec(val)
+
+
+# ------------------------------------------------------------------ reference semantics (oracle side)
+def T(t):
+    """stream term of Model/Action.v"""
+    if t[0] == 'none':
+        return 'SNone'
+    if t[0] == 'orig':
+        return 'SOrig'
+    if t[0] == 'live':
+        return '(SLive %d)' % t[1]
+    return '(SWriter %d %s)' % (t[1], T(t[2]))
+
+
+def mode_term(cap, live):
+    if cap:
+        return '(MCapture %s)' % T(live)
+    return 'MKeep' if live[0] == 'none' else '(MRedirect %s)' % T(live)
+
+
+class Sim:
+    """What the property demands, written down independently of doit's code: an execution installs its
+    capturing stream (or the stream it was given, capture off), everything written goes where the
+    installed stream leads, and when the execution is over -- however it ended -- the streams that
+    were installed before are installed again and the action holds what its capturing stream got.
+    Also produces the sequence of events (`ops`) the Coq model is evaluated on."""
+    def __init__(self):
+        self.cur = [('orig',), ('orig',)]
+        self.ops = []
+        self.buf, self.attr, self.sink = {}, {}, {}
+        self.orig = [[], []]
+
+    def deliver(self, t, ch, c):
+        while t[0] == 'writer':
+            self.buf[(t[1], ch)].append(c)
+            t = t[2]
+        if t[0] == 'orig':
+            self.orig[ch].append(c)
+        elif t[0] == 'live':
+            self.sink.setdefault(t[1], []).append(c)
+
+    def write(self, ch, c):
+        self.ops.append('Write %s %d' % ('true' if ch else 'false', c))
+        self.deliver(self.cur[ch], ch, c)
+
+    def fail(self, i):
+        self.ops.append('Enter %d MFail MFail' % i)
+
+    def enter(self, i, cap, lo, le):
+        self.ops.append('Enter %d %s %s' % (i, mode_term(cap, lo), mode_term(cap, le)))
+        token = (list(self.cur), cap)
+        for ch, live in ((0, lo), (1, le)):
+            if cap:
+                self.buf[(i, ch)] = []
+                self.cur[ch] = ('writer', i, live)
+            elif live[0] != 'none':
+                self.cur[ch] = live
+        return token
+
+    def exit(self, i, tag, token):
+        self.ops.append('Exit %d %s' % (i, tag))
+        self.cur = list(token[0])
+        if token[1]:
+            for ch in (0, 1):
+                self.attr[(i, ch)] = list(self.buf[(i, ch)])
+
+    def action(self, i, cap, lo, le, ws, end):
+        tok = self.enter(i, cap, lo, le)
+        for ch, j in ws:
+            self.write(ch, j)
+        self.exit(i, END_TAG[end], tok)
+
+    @staticmethod
+    def code(t):
+        return {'orig': 0, 'none': -5}.get(t[0], (1 + t[1]) if t[0] == 'writer' else (500 + t[1]) if t[0] == 'live' else 999)
+
+    def vector(self, ch, ids, sinks):
+        v = [self.code(self.cur[ch])]
+        for i in ids:
+            a = self.attr.get((i, ch))
+            v += [-1] if a is None else [-2] + a
+        v += [-3] + self.orig[ch]
+        for k in sinks:
+            v += [-4] + self.sink.get(k, [])
+        return v
+
+
+def live_for(v):
+    """Stream._get_out_err as documented: verbosity 0 nothing, 1 stderr, 2 both"""
+    return (('orig',) if v == 2 else ('none',)), (('orig',) if v >= 1 else ('none',))
+
+
+def explain(got, want, where):
+    """sentence + shape for an observation that differs from what the property demands"""
+    if got[0] != want[0]:
+        return ('%s is not the original object after %s (it is %s)' % (
+            '%s', where, 'a doit Writer' if 1 <= got[0] < 500 else 'another stream'), 'restore')
+    return ('%s: captured / shown output differs from what was written after ' + where, 'capture')
 
 
 # ------------------------------------------------------------------ A. python-action classification
@@ -55,9 +263,19 @@ def py_representatives():
         def __bool__(self):
             return False
 
+    class BaseSub(SystemExit):
+        pass
+
     def raiser(exc):
         def f():
+            sys.stdout.write(text(1)); sys.stderr.write(text(2))
             raise exc
+        return f
+
+    def exiter(*a):
+        def f():
+            sys.stdout.write(text(1)); sys.stderr.write(text(2))
+            sys.exit(*a)
         return f
     reps = [
         ('RTrue', lambda: True), ('RFalse', lambda: False), ('RNone', lambda: None),
@@ -70,10 +288,15 @@ def py_representatives():
         ('ROther', lambda: b'bytes'), ('ROther', lambda: object()), ('ROther', lambda: Falsy()),
         ('ROther', lambda: {1, 2}), ('ROther', lambda: Exception('returned, not raised')),
         ('ROther', lambda: NotImplemented), ('ROther', lambda: 0.0),
+        ('ROther', lambda: SystemExit(1)), ('ROther', lambda: KeyboardInterrupt()),     # returned, not raised
         ('RRaises', raiser(ValueError('v'))), ('RRaises', raiser(KeyError('k'))),
         ('RRaises', raiser(TaskFailed('raised'))), ('RRaises', raiser(TaskError('raised'))),
         ('RRaises', raiser(OSError(2, 'x'))), ('RRaises', raiser(StopIteration())),
         ('RRaises', raiser(AssertionError())), ('RRaises', raiser(ZeroDivisionError())),
+        ('RBaseExc', exiter()), ('RBaseExc', exiter(0)), ('RBaseExc', exiter(3)), ('RBaseExc', exiter('message')),
+        ('RBaseExc', raiser(SystemExit(2))), ('RBaseExc', raiser(BaseSub(4))),
+        ('RBaseExc', raiser(KeyboardInterrupt())), ('RBaseExc', raiser(GeneratorExit())),
+        ('RBaseExc', raiser(EscapingBase('user'))), ('RBaseExc', raiser(BaseException('plain'))),
     ]
     return reps
 
@@ -82,14 +305,15 @@ def part_py(ctx, out):
     from doit.action import PythonAction
     reps = py_representatives()
     cases = []
-    for tag, fn in reps:
+    for n, (tag, fn) in enumerate(reps):
+        wrote = tag in ('RRaises', 'RBaseExc')
         with Streams() as st:
             act = PythonAction(fn)
             try:
                 ret = act.execute()
                 obs = classify_ret(ret)
             except BaseException as e:  # noqa
-                obs = 98
+                obs = classify_exc(e)
         sets_result = int(act.result is not None)
         sets_values = int(act.result is not None and act.values is act.result)
         cases.append(dict(
@@ -99,13 +323,16 @@ def part_py(ctx, out):
         out.count('py:' + tag)
         out.nontrivial.add(('py', tag, len(cases)))
         # property oracle, independent of the model: the documented classification
-        want = {'RTrue': 0, 'RNone': 0, 'RStr': 0, 'RDict': 0, 'RFalse': 1, 'RTaskFailed': 1}.get(tag, 2)
+        want = {'RTrue': 0, 'RNone': 0, 'RStr': 0, 'RDict': 0, 'RFalse': 1, 'RTaskFailed': 1, 'RBaseExc': 3}.get(tag, 2)
         if obs != want:
-            out.violations.append(dict(what='python-action returning %s classified %s, documented %s' % (tag, obs, want),
-                                       shape='py-classify:%s' % tag, case=dict(tag=tag)))
+            out.violations.append(dict(what='python-action ending with %s classified %s, documented %s' % (tag, obs, want),
+                                       shape='py-classify:%s' % tag, case=dict(tag=tag, representative=n)))
         if not st.restored():
             out.violations.append(dict(what='sys.stdout/stderr not restored after python-action (%s)' % tag,
-                                       shape='py-restore:%s' % tag, case=dict(tag=tag)))
+                                       shape='py-restore:%s' % tag, case=dict(tag=tag, representative=n)))
+        if wrote and (act.out, act.err) != (text(1), text(2)):
+            out.violations.append(dict(what='python-action that wrote and then raised (%s): self.out/self.err are %r, written %r' % (
+                tag, (act.out, act.err), (text(1), text(2))), shape='py-capture:%s' % tag, case=dict(tag=tag, representative=n)))
     return cases
 
 
@@ -139,25 +366,64 @@ def part_cmd(ctx, out):
         if o != want:
             out.violations.append(dict(what='cmd-action with exit status %d classified %d, documented %d' % (z, o, want),
                                        shape='cmd-classify:%d' % z, case=dict(status=z)))
-    return [dict(model='map (fun z => aout_z (cmd_classify z)) %s' % common.zlist(zs), expected=obs, desc=('cmd', len(zs)))]
+    cases = [dict(model='map (fun z => aout_z (cmd_classify z)) %s' % common.zlist(zs), expected=obs, desc=('cmd', len(zs)))]
+    # the command string computed by a callable (with and without a task, capture on and off)
+    from doit.task import Task
+    xs, xobs = [], []
+    for how in ('string', 'raise') + BASE_ENDS:
+        for rc in (0, 1, 126):
+            for cap in (None, True, False):
+                def cmd(how=how, rc=rc):
+                    if how == 'string':
+                        return 'exit %d' % rc
+                    return finish(how)
+                tk = None
+                if cap is not None:
+                    tk = Task('c', None, io={'capture': cap})
+                    tk.init_options()
+                act = CmdAction(cmd, task=tk)
+                with Streams() as st:
+                    try:
+                        o = classify_ret(act.execute())
+                    except BaseException as e:  # noqa
+                        o = classify_exc(e)
+                x = 'XString' if how == 'string' else ('XRaises' if how == 'raise' else 'XBaseExc')
+                xs.append('aout_z (cmd_execute %s %d)' % (x, rc)); xobs.append(o)
+                out.count('cmd:callable:%s' % x)
+                out.nontrivial.add(('cmdx', how, rc, cap))
+                want = 3 if x == 'XBaseExc' else (2 if x == 'XRaises' else (0 if rc == 0 else (1 if rc <= 125 else 2)))
+                if o != want or not st.restored():
+                    out.violations.append(dict(what='cmd-action whose command callable does %r (status %d): outcome %d, documented %d, streams restored=%s' % (
+                        how, rc, o, want, st.restored()), shape='cmd-callable:%s' % x, case=dict(how=how, status=rc, capture=cap)))
+    cases.append(dict(model='[%s]' % '; '.join(xs), expected=xobs, desc=('cmd-callable', len(xs))))
+    return cases
 
 
 # ------------------------------------------------------------------ C. Task.execute
 def part_task(ctx, out):
     from doit.task import Task, Stream
+    from doit.action import CmdAction
     from doit.exceptions import TaskFailed, TaskError
     rng = ctx.rng
     cases = []
     n = ctx.n(150, 1500)
-    kinds = ['RTrue', 'RNone', 'RStr', 'RDict', 'RFalse', 'RTaskFailed', 'RTaskError', 'ROther', 'RRaises', 'cmd0', 'cmd1', 'cmd126']
+    kinds = ['RTrue', 'RNone', 'RStr', 'RDict', 'RFalse', 'RTaskFailed', 'RTaskError', 'ROther', 'RRaises', 'cmd0', 'cmd1', 'cmd126',
+             'RBaseExc', 'cmdbase']
     for ci in range(n):
         k = rng.choice([0, 1, 2, 3, 4, 5, 6])
-        weights = [3, 3, 4, 6, 1, 1, 1, 1, 1, 2, 1, 1] if rng.random() < 0.7 else [1] * 12
+        weights = [3, 3, 4, 6, 1, 1, 1, 1, 1, 2, 1, 1, 1, 0.5] if rng.random() < 0.7 else [1] * 14
         spec = rng.choices(kinds, weights=weights, k=k)
         actions, model_acts, tokens = [], [], {}
         ran = []
         for i, kd in enumerate(spec):
             tok = 100 + i
+            if kd == 'cmdbase':
+                def cmd(i=i, how=rng.choice(BASE_ENDS)):
+                    ran.append(i)
+                    finish(how)
+                actions.append(CmdAction(cmd))
+                model_acts.append('{| a_out := cmd_execute XBaseExc 0; a_result := None; a_values := [] |}')
+                continue
             if kd.startswith('cmd'):
                 status = int(kd[3:])
                 actions.append('echo c%d; exit %d' % (i, status))
@@ -171,22 +437,23 @@ def part_task(ctx, out):
                 vals = list(dict(vals).items())
             value = {'RTrue': True, 'RNone': None, 'RStr': 's%d' % i, 'RDict': {('k%d' % a): b for a, b in vals},
                      'RFalse': False, 'RTaskFailed': TaskFailed('f'), 'RTaskError': TaskError('e'), 'ROther': 7 + i,
-                     'RRaises': None}[kd]
+                     'RRaises': None, 'RBaseExc': None}[kd]
             if kd == 'RStr':
                 tokens[value] = tok
 
-            def mk(kd=kd, value=value, i=i):
+            def mk(kd=kd, value=value, i=i, how=rng.choice(BASE_ENDS)):
                 def f():
                     ran.append(i)
                     if kd == 'RRaises':
                         raise RuntimeError('boom')
+                    if kd == 'RBaseExc':
+                        finish(how)
                     return value
                 return f
             actions.append(mk())
-            o = {'RTrue': 'AOk', 'RNone': 'AOk', 'RStr': 'AOk', 'RDict': 'AOk', 'RFalse': 'AFailed', 'RTaskFailed': 'AFailed'}.get(kd, 'AError')
             res = 'Some %d' % tok if kd in ('RStr', 'RDict') else 'None'
-            model_acts.append('{| a_out := %s; a_result := %s; a_values := %s |}' % (
-                o, res, '[' + '; '.join('(%d, %d)' % kv for kv in vals) + ']'))
+            model_acts.append('{| a_out := py_classify %s; a_result := %s; a_values := %s |}' % (
+                kd, res, '[' + '; '.join('(%d, %d)' % kv for kv in vals) + ']'))
             if kd == 'RDict':
                 tokens[id(value)] = tok
         task = Task('t', actions)
@@ -195,7 +462,7 @@ def part_task(ctx, out):
                 ret = task.execute(Stream(0))
                 obs = classify_ret(ret)
             except BaseException as e:  # noqa
-                obs = 98
+                obs = classify_exc(e)
         r = task.result
         if r is None:
             rz = -1
@@ -215,91 +482,244 @@ def part_task(ctx, out):
         out.count('task:len%d' % k)
         if any(o not in ('RTrue', 'RNone', 'RStr', 'RDict', 'cmd0') for o in spec[:-1]) or len(spec) >= 2:
             out.nontrivial.add(('task', tuple(spec), tuple(vz)))
-        # independent oracle: stops at first unsuccessful action
+        # independent oracle: stops at first unsuccessful action; an escaping exception escapes
         okk = ('RTrue', 'RNone', 'RStr', 'RDict', 'cmd0')
         first_bad = next((i for i, s_ in enumerate(spec) if s_ not in okk), None)
         want_started = len(spec) if first_bad is None else first_bad + 1
-        if started != want_started or not st.restored():
-            out.violations.append(dict(what='Task.execute ran %d actions of %s (expected %d), streams restored=%s' % (started, spec, want_started, st.restored()),
-                                       shape='task-execute', case=dict(spec=spec)))
+        want_obs = 0 if first_bad is None else (
+            3 if spec[first_bad] in ('RBaseExc', 'cmdbase') else 1 if spec[first_bad] in ('RFalse', 'RTaskFailed', 'cmd1') else 2)
+        if started != want_started or obs != want_obs or not st.restored():
+            out.violations.append(dict(what='Task.execute ran %d actions of %s (expected %d), outcome %d (expected %d), streams restored=%s' % (
+                started, spec, want_started, obs, want_obs, st.restored()), shape='task-execute', case=dict(spec=spec)))
     if cases:
         out.samples.append({'task_execute_actions': cases[0]['desc'][1], 'observed': cases[0]['expected']})
     return cases
 
 
-# ------------------------------------------------------------------ D. restoration of the global streams
-def gen_tree(rng, depth, counter, pfail):
-    """a forest of action executions: (id, kwargs_fail, children)"""
+# ------------------------------------------------------------------ D. nested / sequential executions, every way of ending
+OUT_SINKS, ERR_SINKS = [0, 2], [1, 3]
+
+
+def gen_forest(rng, depth, ctr, pbase):
+    """a forest of action executions.  node: id, kf (_prepare_kwargs fails), via ('action': PythonAction.execute
+    called directly with out/err; 'task': through Task.execute at verbosity v), cap (task.io.capture),
+    out/err ('none' | 'cur' = the stream installed at that moment | 'sink:k'), body (writes ['w', is_err, chunk]
+    and nested executions ['x', node] in program order), end (how the callable ends if nothing escaped
+    from a nested execution before), catch (the enclosing callable catches what escapes from this one)"""
     forest = []
-    for _ in range(rng.choice([0, 1, 1, 2, 3]) if depth else rng.choice([1, 2, 3])):
-        i = counter[0]; counter[0] += 1
-        kf = rng.random() < pfail
-        kids = [] if (kf or depth >= 2) else gen_tree(rng, depth + 1, counter, pfail)
-        forest.append((i, kf, kids, rng.choice(['ok', 'ok', 'raise', 'false'])))
+    for _ in range(rng.choice([1, 2, 3]) if depth == 0 else rng.choice([0, 1, 1, 2])):
+        i = ctr[0]; ctr[0] += 1
+        node = dict(id=i, kf=rng.random() < 0.07, via='task' if rng.random() < 0.25 else 'action', cap=rng.random() < 0.7,
+                    task=rng.random() < 0.5, v=rng.choice([0, 1, 2]), catch=rng.random() < 0.5, body=[])
+        if node['via'] == 'task':
+            node['out'] = 'cur' if node['v'] == 2 else 'none'
+            node['err'] = 'cur' if node['v'] >= 1 else 'none'
+        else:
+            node['out'] = rng.choice(['none', 'none', 'cur', 'sink:%d' % rng.choice(OUT_SINKS)])
+            node['err'] = rng.choice(['none', 'none', 'cur', 'sink:%d' % rng.choice(ERR_SINKS)])
+        items = [['w', int(rng.random() < 0.4), None] for _ in range(rng.randrange(0, 4))]
+        if depth < 2 and not node['kf']:
+            items += [['x', c] for c in gen_forest(rng, depth + 1, ctr, pbase)]
+            rng.shuffle(items)
+        for it in items:
+            if it[0] == 'w':
+                it[2] = ctr[1]; ctr[1] += 1
+        node['body'] = items
+        node['end'] = rng.choice(BASE_ENDS) if rng.random() < pbase else rng.choice(['none', 'none', 'true', 'str', 'dict', 'false', 'other', 'raise', 'tfailed'])
+        forest.append(node)
     return forest
 
 
-def forest_ops(forest):
-    ops = []
-    for i, kf, kids, how in forest:
-        if kf:
-            ops.append('Enter %d true' % i)
-        else:
-            ops.append('Enter %d false' % i)
-            ops += forest_ops(kids)
-            ops.append('Exit %d' % i)
-    return ops
+def forest_ids(forest):
+    ids = []
+    for n in forest:
+        ids.append(n['id'])
+        ids += forest_ids([it[1] for it in n['body'] if it[0] == 'x'])
+    return sorted(ids)
 
 
-def run_forest(forest, mine):
+def sim_node(node, sim):
+    """reference run of one node; True if an exception escapes from it"""
+    i = node['id']
+    if node['kf']:
+        sim.fail(i)
+        return False            # InvalidTask: an Exception, caught where the action was started
+
+    def live(spec, ch):
+        return ('none',) if spec == 'none' else (sim.cur[ch] if spec == 'cur' else ('live', int(spec.split(':')[1])))
+    tok = sim.enter(i, node['cap'], live(node['out'], 0), live(node['err'], 1))
+    escaped = False
+    for it in node['body']:
+        if it[0] == 'w':
+            sim.write(it[1], it[2])
+        elif sim_node(it[1], sim) and not it[1]['catch']:
+            escaped = True
+            break
+    if not escaped:
+        escaped = node['end'] in BASE_ENDS
+    sim.exit(i, 'RBaseExc' if escaped else END_TAG[node['end']], tok)
+    return escaped
+
+
+class Rt:
+    def __init__(self):
+        self.sinks = {k: io.StringIO() for k in OUT_SINKS + ERR_SINKS}
+        self.writers, self.acts = {}, {}
+        self.unrestored, self.crash = [], []
+
+
+def run_node(node, rt):
+    """the real thing: may raise what escapes from the action"""
     from doit.action import PythonAction
-    from doit.task import Task
+    from doit.task import Task, Stream
     from doit.exceptions import InvalidTask
-    for i, kf, kids, how in forest:
-        if kf:
-            def bad(task=None):  # default value on a reserved name -> _prepare_kwargs raises InvalidTask
-                mine[i] = sys.stdout
-            t = Task('t%d' % i, [bad])
+    i = node['id']
+
+    def resolve(spec, cur):
+        return None if spec == 'none' else (cur if spec == 'cur' else rt.sinks[int(spec.split(':')[1])])
+
+    def body():
+        if node['cap']:
+            rt.writers[i] = (sys.stdout, sys.stderr)
+        for it in node['body']:
+            if it[0] == 'w':
+                (sys.stderr if it[1] else sys.stdout).write(text(it[2]))
+                continue
             try:
-                t.actions[0].execute()
+                run_node(it[1], rt)
+            except Exception as e:      # nothing but InvalidTask (handled below) is expected here
+                rt.crash.append(repr(e))
+            except BaseException:
+                if not it[1]['catch']:
+                    raise
+        return finish(node['end'])
+
+    before = (sys.stdout, sys.stderr)
+    try:
+        io_ = {'capture': node['cap']}
+        if node['kf']:
+            def bad(task=None):  # default value on a reserved name -> _prepare_kwargs raises InvalidTask
+                pass
+            t = Task('n%d' % i, [bad], verbosity=node['v'], io=io_)
+            try:
+                if node['via'] == 'task':
+                    t.execute(Stream(None))
+                else:
+                    t.actions[0].execute(resolve(node['out'], before[0]), resolve(node['err'], before[1]))
             except InvalidTask:
                 pass
+        elif node['via'] == 'task':
+            t = Task('n%d' % i, [body], verbosity=node['v'], io=io_)
+            rt.acts[i] = t.actions[0]
+            t.execute(Stream(None))
         else:
-            def f(i=i, kids=kids, how=how):
-                mine[i] = sys.stdout
-                print('in', i)
-                run_forest(kids, mine)
-                if how == 'raise':
-                    raise RuntimeError('x')
-                return how != 'false'
-            PythonAction(f).execute()
+            tk = Task('n%d' % i, None, io=io_) if (node['task'] or not node['cap']) else None
+            if tk:
+                tk.init_options()
+            act = PythonAction(body, task=tk)
+            rt.acts[i] = act
+            act.execute(resolve(node['out'], before[0]), resolve(node['err'], before[1]))
+    finally:
+        # the property, per execution: the very objects that were installed before are installed again
+        if sys.stdout is not before[0] or sys.stderr is not before[1]:
+            rt.unrestored.append(i)
+
+
+def stream_code(obj, orig, rt, ch):
+    if obj is orig:
+        return 0
+    for k, s in rt.sinks.items():
+        if obj is s:
+            return 500 + k
+    for i, pair in rt.writers.items():
+        if obj is pair[ch]:
+            return 1 + i
+    return 999
+
+
+def forest_case(forest):
+    """run one forest for real and by the reference semantics"""
+    ids = forest_ids(forest)
+    sim = Sim()
+    for node in forest:
+        sim_node(node, sim)
+    rt = Rt()
+    with Streams() as st:
+        for node in forest:
+            try:
+                run_node(node, rt)
+            except Exception as e:  # noqa
+                rt.crash.append(repr(e))
+            except BaseException:
+                pass                 # what escapes from a top-level action is caught by its caller
+        cells = (sys.stdout, sys.stderr)
+    got = []
+    for ch, sinks in ((0, OUT_SINKS), (1, ERR_SINKS)):
+        v = [stream_code(cells[ch], (st.out, st.err)[ch], rt, ch)]
+        for i in ids:
+            a = rt.acts.get(i)
+            v += [-1] if a is None else attr_z((a.out, a.err)[ch])
+        v += [-3] + dec((st.out, st.err)[ch].getvalue())
+        for k in sinks:
+            v += [-4] + dec(rt.sinks[k].getvalue())
+        got.append(v)
+    want = [sim.vector(0, ids, OUT_SINKS), sim.vector(1, ids, ERR_SINKS)]
+    return dict(ids=ids, ops=sim.ops, got=got, want=want, unrestored=rt.unrestored, crash=rt.crash)
+
+
+def forest_flags(forest):
+    fl = set()
+    for n in forest:
+        if n['kf']:
+            fl.add('kwargs_fail')
+        if n['end'] in BASE_ENDS:
+            fl.add('escaping')
+        if not n['cap']:
+            fl.add('nocapture')
+        kids = [it[1] for it in n['body'] if it[0] == 'x']
+        if kids:
+            fl.add('nested')
+        fl |= forest_flags(kids)
+    return fl
+
+
+def forest_violations(forest, r):
+    vs = []
+    flags = forest_flags(forest)
+    suffix = ('-kwargs-fail' if 'kwargs_fail' in flags else '') + ('-escaping' if 'escaping' in flags else '')
+    if r['unrestored']:
+        vs.append(dict(what='sys.stdout/sys.stderr are not the objects they were before the execution of a python-action (executions %s of the case)%s' % (
+            r['unrestored'], ' -- some callable raises SystemExit/KeyboardInterrupt/another BaseException' if 'escaping' in flags else ''),
+            shape='restore-per-action' + suffix, case=dict(forest=forest)))
+    for ch, name in ((0, 'sys.stdout'), (1, 'sys.stderr')):
+        if r['got'][ch] != r['want'][ch]:
+            msg, kind = explain(r['got'][ch], r['want'][ch], 'a properly nested sequence of python-actions%s%s' % (
+                ' (one failing in _prepare_kwargs)' if 'kwargs_fail' in flags else '',
+                ' (some ending with SystemExit/KeyboardInterrupt/another BaseException)' if 'escaping' in flags else ''))
+            vs.append(dict(what=msg % name, shape='%s-nested%s' % (kind, suffix),
+                           case=dict(forest=forest, channel=name, observed=r['got'][ch], demanded=r['want'][ch])))
+    if r['crash']:
+        vs.append(dict(what='unexpected exception from PythonAction.execute/Task.execute: %s' % r['crash'][:2], shape='nested-crash',
+                       case=dict(forest=forest)))
+    return vs
 
 
 def part_restore_nested(ctx, out):
     cases = []
-    for ci in range(ctx.n(120, 1200)):
-        counter = [1]
-        forest = gen_tree(ctx.rng, 0, counter, 0.15 if ci % 2 else 0.0)
-        ops = forest_ops(forest)
-        mine = {}
-        with Streams() as st:
-            try:
-                run_forest(forest, mine)
-            except BaseException as e:  # noqa
-                mine['crash'] = repr(e)
-            cur = sys.stdout
-            cell = 0 if cur is st.out else next((1 + i for i, w in mine.items() if w is cur), 999)
-            cur_e = sys.stderr
-        cases.append(dict(model='[stream_z (s_cell (srun false [%s]))]' % '; '.join(ops), expected=[cell], desc=('nested', ops)))
-        out.count('restore:nested' + (':kwargs_fail' if any('true' in o for o in ops) else ''))
-        if len(ops) >= 3:
-            out.nontrivial.add(('nested', tuple(ops)))
-        if cell != 0 or cur_e is not st.err:
-            kf = any('true' in o for o in ops)
-            out.violations.append(dict(what='sys.stdout/stderr not the original object after a properly nested sequence of python-actions%s' % (' (one failing in _prepare_kwargs)' if kf else ''),
-                                       shape='restore-nested' + ('-kwargs-fail' if kf else ''), case=dict(ops=ops)))
+    for ci in range(ctx.n(360, 3000)):
+        ctr = [1, 0]
+        forest = gen_forest(ctx.rng, 0, ctr, [0.0, 0.25, 0.5][ci % 3])
+        r = forest_case(forest)
+        cases.append(dict(model='obs2 %s %s %s [%s]' % (common.coq_list(r['ids'], '%nat'), common.coq_list(OUT_SINKS, '%nat'),
+                                                       common.coq_list(ERR_SINKS, '%nat'), '; '.join(r['ops'])),
+                          expected=r['got'][0] + r['got'][1], desc=('nested', r['ops'])))
+        flags = forest_flags(forest)
+        out.count('restore:nested' + ''.join(':' + f for f in sorted(flags)))
+        if len(r['ops']) >= 3:
+            out.nontrivial.add(('nested', tuple(r['ops'])))
+        out.violations += forest_violations(forest, r)
     if cases:
-        out.samples.append({'nested_action_executions': cases[-1]['desc'][1], 'final_stream': cases[-1]['expected']})
+        out.samples.append({'nested_action_executions': cases[-1]['desc'][1], 'observed(stdout ++ stderr)': cases[-1]['expected']})
     return cases
 
 
@@ -330,9 +750,9 @@ def is_nested(seq):
     return True
 
 
-def run_interleaving(seq, k):
+def run_interleaving(seq, k, ends):
     """k threads, each executing one PythonAction; the callable blocks so that swaps/restores
-    happen in exactly the order `seq`"""
+    happen in exactly the order `seq`; callable i ends the way ends[i] says"""
     from doit.action import PythonAction
     go_in = [threading.Event() for _ in range(k)]
     inside = [threading.Event() for _ in range(k)]
@@ -346,7 +766,11 @@ def run_interleaving(seq, k):
             mine[i] = sys.stdout
             inside[i].set()
             go_out[i].wait(10)
-        PythonAction(f).execute()
+            return finish(ends[i])
+        try:
+            PythonAction(f).execute()
+        except BaseException:  # noqa
+            pass
         done[i].set()
     ths = [threading.Thread(target=body, args=(i,), daemon=True) for i in range(k)]
     with Streams() as st:
@@ -368,63 +792,152 @@ def part_restore_threads(ctx, out):
     cases = []
     for k in ([2] if ctx.quick else [2, 3]):
         for seq in interleavings(k):
-            cell = run_interleaving(seq, k)
-            ops = ['Enter %d false' % i if op == 'E' else 'Exit %d' % i for op, i in seq]
-            cases.append(dict(model='[stream_z (s_cell (srun false [%s]))]' % '; '.join(ops), expected=[cell], desc=('threads', ops)))
-            out.count('restore:threads:%s' % ('nested' if is_nested(seq) else 'overlap'))
-            out.nontrivial.add(('threads', tuple(ops)))
-            if cell != 0:
-                shape = 'restore-nested' if is_nested(seq) else 'thread-overlap-python-actions'
-                out.violations.append(dict(what='sys.stdout left as a doit Writer after python-actions overlapping in different threads',
-                                           shape=shape, case=dict(ops=ops)))
+            for ends in itertools.product(('none', 'exit'), repeat=k) if k == 2 else [tuple(ctx.rng.choice(['none', 'exit', 'kbd', 'raise']) for _ in range(k))]:
+                cell = run_interleaving(seq, k, ends)
+                ops = ['Enter %d (MCapture SNone) (MCapture SNone)' % i if op == 'E' else 'Exit %d %s' % (i, END_TAG[ends[i]]) for op, i in seq]
+                cases.append(dict(model='[stream_z (s_cell (srun false false [%s]))]' % '; '.join(ops), expected=[cell], desc=('threads', ops)))
+                out.count('restore:threads:%s' % ('nested' if is_nested(seq) else 'overlap'))
+                out.nontrivial.add(('threads', tuple(ops)))
+                if cell != 0:
+                    shape = 'restore-nested' if is_nested(seq) else 'thread-overlap-python-actions'
+                    out.violations.append(dict(what='sys.stdout left as a doit Writer after python-actions overlapping in different threads',
+                                               shape=shape, case=dict(ops=ops)))
     out.samples.append({'thread_interleaving': cases[-1]['desc'][1], 'final_stream': cases[-1]['expected']})
     return cases
 
 
-# ------------------------------------------------------------------ E. capture
+# ------------------------------------------------------------------ E. capture: one task, every way of ending
+def gen_acts(rng, ctr, n, pbase, ends=None):
+    acts = []
+    for _ in range(n):
+        ws = [[int(rng.random() < 0.4), None] for _ in range(rng.randrange(0, 5))]
+        for w in ws:
+            w[1] = ctr[1]; ctr[1] += 1
+        end = rng.choice(BASE_ENDS) if rng.random() < pbase else rng.choice(ends or ['none', 'none', 'true', 'str', 'dict', 'false', 'other', 'raise', 'tfailed', 'terror'])
+        acts.append(dict(id=ctr[0], ws=ws, end=end))
+        ctr[0] += 1
+    return acts
+
+
+def coq_acts(acts):
+    return '[' + '; '.join('{| as_id := %d; as_ws := [%s]; as_tag := %s |}' % (
+        a['id'], '; '.join('(%s, %d)' % ('true' if ch else 'false', j) for ch, j in a['ws']), END_TAG[a['end']]) for a in acts) + ']'
+
+
+def mk_callable(a, reg=None, with_task=False):
+    def f():
+        for ch, j in a['ws']:
+            (sys.stderr if ch else sys.stdout).write(text(j))
+        return finish(a['end'])
+    if not with_task:
+        return f
+
+    def g(task):
+        reg[a['id']] = task
+        return f()
+    return g
+
+
+def sim_task(sim, cap, v, acts):
+    """reference run of Task.execute; returns (outcome, class of the escaping exception or None)"""
+    lo, le = live_for(v)
+    for a in acts:
+        sim.action(a['id'], cap, lo, le, a['ws'], a['end'])
+        o = end_outcome(a['end'])
+        if o != 0:
+            return o, END_CLASS.get(a['end'])
+    return 0, None
+
+
+def task_case(spec):
+    from doit.task import Task, Stream
+    cap, v, acts = spec['cap'], spec['v'], spec['acts']
+    ids = [a['id'] for a in acts]
+    sim = Sim()
+    want_o, want_cls = sim_task(sim, cap, v, acts)
+    task = Task('t', [mk_callable(a) for a in acts], verbosity=v, io={'capture': cap})
+    escaped = None
+    with Streams() as st:
+        try:
+            obs = classify_ret(task.execute(Stream(None)))
+        except BaseException as e:  # noqa
+            obs, escaped = classify_exc(e), type(e)
+        cells = (sys.stdout, sys.stderr)
+    got = []
+    for ch in (0, 1):
+        v_ = [0 if cells[ch] is (st.out, st.err)[ch] else 999]
+        for a in task.actions:
+            v_ += attr_z((a.out, a.err)[ch])
+        v_ += [-3] + dec((st.out, st.err)[ch].getvalue())
+        got.append(v_)
+    return dict(ids=ids, got=got, want=[sim.vector(0, ids, []), sim.vector(1, ids, [])], obs=obs, want_obs=want_o,
+                escaped=escaped, want_cls=want_cls)
+
+
+def task_violations(spec, r, where='Task.execute', shape='task'):
+    vs = []
+    esc = any(a['end'] in BASE_ENDS for a in spec.get('acts', [])) or any(a['end'] in BASE_ENDS for t in spec.get('tasks', []) for a in t['acts'])
+    suffix = '-escaping' if esc else ''
+    for ch, name in ((0, 'sys.stdout'), (1, 'sys.stderr')):
+        if r['got'][ch] != r['want'][ch]:
+            msg, kind = explain(r['got'][ch], r['want'][ch], '%s%s' % (where, ' (an action raises SystemExit/KeyboardInterrupt/another BaseException)' if esc else ''))
+            vs.append(dict(what=msg % name, shape='%s-%s%s' % (kind, shape, suffix),
+                           case=dict(spec=spec, channel=name, observed=r['got'][ch], demanded=r['want'][ch])))
+    if r['obs'] != r['want_obs'] or (r['want_cls'] is not None and r['escaped'] is not r['want_cls']):
+        vs.append(dict(what='%s: outcome %s (escaping %s), documented %s (escaping %s)' % (where, r['obs'], r['escaped'], r['want_obs'], r['want_cls']),
+                       shape='outcome-%s%s' % (shape, suffix), case=dict(spec=spec)))
+    return vs
+
+
 def part_capture(ctx, out):
     from doit.task import Task, Stream
     rng = ctx.rng
     cases = []
-    for ci in range(ctx.n(90, 600)):
+    for ci in range(ctx.n(300, 2000)):
+        ctr = [0, 0]
+        spec = dict(cap=rng.random() < 0.75, v=rng.choice([0, 1, 2]), acts=gen_acts(rng, ctr, 1 if ci % 2 == 0 else rng.choice([2, 3, 4]), [0.0, 0.6][ci % 4 // 2]))
+        r = task_case(spec)
+        ids = common.coq_list(r['ids'], '%nat')
+        cap = 'true' if spec['cap'] else 'false'
+        cases.append(dict(model='let acts := %s in obs2 %s [] [] (task_ops %s %d acts) ++ [aout_z (task_outcome acts)]' % (coq_acts(spec['acts']), ids, cap, spec['v']),
+                          expected=r['got'][0] + r['got'][1] + [r['obs']], desc=('task-capture', spec)))
+        if len(spec['acts']) == 1:
+            a = spec['acts'][0]
+            ws = '[' + '; '.join('(%s, %d)' % ('true' if ch else 'false', j) for ch, j in a['ws']) + ']'
+            g0, g1 = r['got']
+            k0, k1 = g0.index(-3), g1.index(-3)
+            cases.append(dict(model=('let c := py_capture %s %d %s %s in attr_z (c_out c) ++ attr_z (c_err c) ++ [-3] ++ c_live_out c ++ [-3] ++ c_live_err c '
+                                     '++ [stream_z (c_cell_out c); stream_z (c_cell_err c)]') % (cap, spec['v'], ws, END_TAG[a['end']]),
+                              expected=g0[1:k0] + g1[1:k1] + g0[k0:] + g1[k1:] + [g0[0], g1[0]], desc=('capture', spec)))
+        out.count('capture:py:%s:v%d:%s' % ('on' if spec['cap'] else 'off', spec['v'], 'escaping' if r['want_obs'] == 3 else 'other'))
+        if sum(len(a['ws']) for a in spec['acts']) >= 2:
+            out.nontrivial.add(('cap', spec['cap'], spec['v'], tuple((a['end'], tuple(map(tuple, a['ws']))) for a in spec['acts'])))
+        out.violations += task_violations(spec, r)
+    # big chunks: byte-level behaviour of StringIO / Writer, exercised (not modelled)
+    for ci in range(ctx.n(30, 200)):
         v = rng.choice([0, 1, 2])
-        ws = [(rng.random() < 0.4, j) for j in range(rng.randrange(0, 9))]
-        text = {j: ('chunk%d-%s\n' % (j, 'x' * rng.choice([0, 1, 10, 1000, 70000 if rng.random() < 0.05 else 5]))) for _, j in ws}
+        end = rng.choice(['none', 'raise', 'exit', 'kbd'])
+        big = [('chunk%d-%s\n' % (j, 'x' * rng.choice([0, 1, 10, 1000, 70000 if rng.random() < 0.1 else 5])), rng.random() < 0.4) for j in range(rng.randrange(1, 7))]
 
         def f():
-            for is_err, j in ws:
-                (sys.stderr if is_err else sys.stdout).write(text[j])
-            return True
+            for s, is_err in big:
+                (sys.stderr if is_err else sys.stdout).write(s)
+            return finish(end)
         task = Task('t', [f], verbosity=v)
         with Streams() as st:
-            task.execute(Stream(None))
-        act = task.actions[0]
-
-        def dec(s):
-            ids, rest = [], s
-            for _, j in ws:
+            try:
+                task.execute(Stream(None))
+            except BaseException:  # noqa
                 pass
-            # decode a concatenation of chunk texts back into ids (chunks are self-delimiting)
-            while rest:
-                hit = next((j for j in text if rest.startswith(text[j])), None)
-                if hit is None:
-                    return [-7]
-                ids.append(hit); rest = rest[len(text[hit]):]
-            return ids
-        exp = dec(act.out) + [-1] + dec(act.err) + [-1] + dec(st.out.getvalue()) + [-1] + dec(st.err.getvalue())
-        wl = '[' + '; '.join('(%s, %d)' % ('true' if e else 'false', j) for e, j in ws) + ']'
-        model = 'let c := py_capture %d %s in c_out c ++ [-1] ++ c_err c ++ [-1] ++ c_live_out c ++ [-1] ++ c_live_err c' % (v, wl)
-        cases.append(dict(model=model, expected=exp, desc=('capture', v, ws)))
-        out.count('capture:py:v%d' % v)
-        if len(ws) >= 2:
-            out.nontrivial.add(('cap', v, tuple(ws)))
-        want_out = [j for e, j in ws if not e]; want_err = [j for e, j in ws if e]
-        if dec(act.out) != want_out or dec(act.err) != want_err or not st.restored():
-            out.violations.append(dict(what='python-action output not captured completely/in order (verbosity %d)' % v,
-                                       shape='capture-py', case=dict(verbosity=v, writes=ws)))
+        act = task.actions[0]
+        wo, we = ''.join(s for s, e in big if not e), ''.join(s for s, e in big if e)
+        out.count('capture:py:big')
+        if (act.out, act.err) != (wo, we) or st.out.getvalue() != (wo if v == 2 else '') or st.err.getvalue() != (we if v >= 1 else '') or not st.restored():
+            out.violations.append(dict(what='python-action output (large chunks, ending with %r) not captured completely/in order (verbosity %d)' % (end, v),
+                                       shape='capture-py-big', case=dict(verbosity=v, end=end, sizes=[len(s) for s, _ in big])))
     # cmd-actions: byte-level capture is library behaviour (pipes, threads, decoding): exercised only
     n_cmd = 0
-    unit = {'ascii': b'ab', 'badutf8': b'\xff\xfe', 'utf8-3byte': '\u20ac'.encode('utf-8'), 'utf8-mixed': 'a\u00e9\u20ac\U0001F600'.encode('utf-8')}
+    unit = {'ascii': b'ab', 'badutf8': b'\xff\xfe', 'utf8-3byte': '€'.encode('utf-8'), 'utf8-mixed': 'aé€\U0001F600'.encode('utf-8')}
     for size in ([0, 1, 4096, 8191, 8192, 8193, 24576, 65536, 300000] if ctx.quick else [0, 1, 100, 4095, 4096, 4097, 8190, 8191, 8192, 8193, 16383, 16384, 16385, 24576, 65535, 65536, 65537, 300000, 2000000]):
         for v in (0, 1, 2):
             for mode in ('ascii', 'badutf8', 'utf8-3byte', 'utf8-mixed'):
@@ -456,25 +969,222 @@ def part_capture(ctx, out):
     return cases
 
 
+# ------------------------------------------------------------------ F. whole runs
+ROUTES = ('serial', 'thread', 'main', 'main-thread')
+
+
+def gen_run(rng, route, pbase):
+    ctr = [0, 0]
+    tasks = []
+    # the worker of the thread runner hands over SystemExit / KeyboardInterrupt / Exception only
+    base = ('exit', 'exit0', 'exitmsg', 'kbd') if 'thread' in route else BASE_ENDS
+    for _ in range(rng.choice([1, 2, 3])):
+        acts = gen_acts(rng, ctr, rng.choice([1, 1, 2, 3]), 0.0, ends=['none', 'none', 'none', 'true', 'str', 'dict', 'dict', 'false', 'raise'])
+        tasks.append(dict(cap=rng.random() < 0.75, acts=acts,
+                          teardown=gen_acts(rng, ctr, rng.choice([0, 0, 1, 2]), 0.0, ends=['none', 'none', 'true', 'false', 'raise'])))
+    if rng.random() < pbase:
+        a = rng.choice([a for t in tasks for a in t['acts']])
+        a['end'] = rng.choice(base)
+    return dict(route=route, v=rng.choice([0, 1, 2]), tasks=tasks)
+
+
+def sim_run(sim, spec):
+    v = spec['v']
+    tds = []
+    res = (0, None)
+    for t in spec['tasks']:
+        tds.insert(0, t)
+        res = sim_task(sim, t['cap'], v, t['acts'])
+        if res[0] != 0:
+            break
+    for t in tds:
+        sim_task(sim, t['cap'], v, t['teardown'])
+    return res
+
+
+def run_case(spec, tmp, tag):
+    """one run for real (route: serial Runner / MThreadRunner with one worker, built by hand; DoitMain.run
+    in-process, serial and -n 1 -P thread) and by the reference semantics"""
+    from doit.task import Task, Stream
+    ids = [a['id'] for t in spec['tasks'] for a in t['acts'] + t['teardown']]
+    sim = Sim()
+    want_o, want_cls = sim_run(sim, spec)
+    reg = {}
+    names = ['t%d' % n for n in range(len(spec['tasks']))]
+
+    def attrs(n, t):
+        d = dict(actions=[mk_callable(a, reg, True) for a in t['acts']], io={'capture': t['cap']})
+        if t['teardown']:
+            d['teardown'] = [mk_callable(a, reg, True) for a in t['teardown']]
+        if n:
+            d['task_dep'] = [names[n - 1]]
+        return d
+    escaped, crash = None, None
+    db = os.path.join(tmp, '%s.db' % tag)
+
+    def guarded(fn):
+        """the master of the thread runner waits for its worker for ever: do not let a worker that died hang the check"""
+        if 'thread' not in spec['route']:
+            return fn()
+        box = []
+
+        def target():
+            try:
+                box.append(('rc', fn()))
+            except BaseException as e:  # noqa
+                box.append(('exc', e))
+        th = threading.Thread(target=target, daemon=True)
+        th.start()
+        th.join(60)
+        if not box:
+            raise RuntimeError('the run did not end within 60 s')
+        if box[0][0] == 'exc':
+            raise box[0][1]
+        return box[0][1]
+    with Streams() as st:
+        try:
+            if spec['route'] in ('serial', 'thread'):
+                from doit.control import TaskControl
+                from doit.runner import Runner, MThreadRunner
+                from doit.dependency import Dependency, DbmDB
+                from doit.reporter import ConsoleReporter
+                tl = [Task(names[n], **attrs(n, t)) for n, t in enumerate(spec['tasks'])]
+                tc = TaskControl(tl)
+                tc.process(None)
+                dep = Dependency(DbmDB, db)
+                rep = ConsoleReporter(io.StringIO(), {})
+                if spec['route'] == 'serial':
+                    runner = Runner(dep, rep, stream=Stream(spec['v']))
+                else:
+                    runner = MThreadRunner(dep, rep, stream=Stream(spec['v']), num_process=1)
+                rc = guarded(lambda: runner.run_all(tc.task_dispatcher()))
+            else:
+                from doit.doit_cmd import DoitMain
+                from doit.cmd_base import ModuleTaskLoader
+                ns = {'DOIT_CONFIG': {'dep_file': db}}
+                for n, t in enumerate(spec['tasks']):
+                    ns['task_' + names[n]] = (lambda d: (lambda: d))(attrs(n, t))
+                args = ['run', '-o', os.path.join(tmp, '%s.report' % tag), '-v', str(spec['v'])]
+                if spec['route'] == 'main-thread':
+                    args += ['-n', '1', '-P', 'thread']
+                rc = guarded(lambda: DoitMain(ModuleTaskLoader(ns)).run(args))
+            obs = rc if rc in (0, 1, 2) else 98
+        except BaseException as e:  # noqa
+            obs, escaped = classify_exc(e), type(e)
+            if obs == 98:
+                crash = repr(e)
+        cells = (sys.stdout, sys.stderr)
+    got = []
+    for ch in (0, 1):
+        v_ = [0 if cells[ch] is (st.out, st.err)[ch] else 999]
+        for n, t in enumerate(spec['tasks']):
+            for which, lst in (('actions', t['acts']), ('teardown', t['teardown'])):
+                for p, a in enumerate(lst):
+                    tk = reg.get(a['id'])
+                    v_ += [-1] if tk is None else attr_z((getattr(tk, which)[p].out, getattr(tk, which)[p].err)[ch])
+        # the reporter may add lines of its own on the original stderr (failing teardown): only the chunks are compared
+        v_ += [-3] + dec_loose((st.out, st.err)[ch].getvalue())
+        got.append(v_)
+    return dict(ids=ids, got=got, want=[sim.vector(0, ids, []), sim.vector(1, ids, [])], obs=obs, want_obs=want_o,
+                escaped=escaped, want_cls=want_cls, crash=crash, raw=(st.out.getvalue()[:300], st.err.getvalue()[:300]))
+
+
+def coq_run(spec):
+    return '[' + '; '.join('{| t_capture := %s; t_acts := %s; t_teardown := %s |}' % (
+        'true' if t['cap'] else 'false', coq_acts(t['acts']), coq_acts(t['teardown'])) for t in spec['tasks']) + ']'
+
+
+def part_runs(ctx, out):
+    rng = ctx.rng
+    tmp = ctx.subdir('runs')
+    cases = []
+    for ci in range(ctx.n(240, 1600)):
+        route = ROUTES[ci % 4]
+        spec = gen_run(rng, route, 0.6)
+        r = run_case(spec, tmp, 'r%d' % ci)
+        cases.append(dict(model='let ts := %s in obs2 %s [] [] (run_ops %d ts []) ++ [aout_z (run_outcome ts)]' % (
+            coq_run(spec), common.coq_list(r['ids'], '%nat'), spec['v']),
+            expected=r['got'][0] + r['got'][1] + [r['obs']], desc=('run', spec)))
+        out.count('run:%s:%s' % (route, 'escaping' if r['want_obs'] == 3 else 'returns'))
+        out.nontrivial.add(('run', route, spec['v'], tuple((t['cap'], tuple(a['end'] for a in t['acts']), len(t['teardown'])) for t in spec['tasks']),
+                            tuple(r['want'][0]), tuple(r['want'][1])))
+        out.violations += task_violations(spec, r, where='a run (%s)' % route, shape='run')
+        if r['crash']:
+            out.violations.append(dict(what='run (%s) ended with an unexpected exception %s' % (route, r['crash']), shape='run-crash', case=dict(spec=spec)))
+    if cases:
+        out.samples.append({'run': cases[-1]['desc'][1], 'observed(stdout ++ stderr ++ [outcome])': cases[-1]['expected']})
+    return cases
+
+
 def run(ctx):
     out = Outcome()
-    out.rule = ('python-action return representatives per tag (exhaustive over tags); exit statuses 0..255 + signals; random action lists for '
-                'Task.execute; random forests of nested action executions and ALL interleavings of k threads for stream restoration; random '
-                'write sequences x verbosity for capture.  non-trivial = distinct case with >=2 actions/ops (classification cases count per representative)')
+    out.rule = ('python-action representatives per way of ending (exhaustive over tags; SystemExit/KeyboardInterrupt/GeneratorExit/user BaseException included); '
+                'exit statuses 0..255 + signals + command callables; random action lists for Task.execute; random forests of nested/sequential action '
+                'executions (capture on/off, live streams none/current/other object, direct or through Task.execute, every way of ending, escaping '
+                'exceptions caught or propagated by the enclosing callable) and ALL interleavings of k threads for stream restoration; random tasks '
+                '(write sequences x verbosity x capture x way of ending) for capture; random runs of task chains with teardowns through Runner, '
+                'MThreadRunner(1), DoitMain.run (serial / -n 1 -P thread).  non-trivial = distinct case with >=2 actions/ops/writes '
+                '(classification cases count per representative)')
     cases = []
-    for part in (part_py, part_cmd, part_task, part_restore_nested, part_restore_threads, part_capture):
-        cases += part(ctx, out)
+    for part in (part_py, part_cmd, part_task, part_restore_nested, part_restore_threads, part_capture, part_runs):
+        real = (sys.stdout, sys.stderr)
+        try:
+            cases += part(ctx, out)
+        finally:
+            sys.stdout, sys.stderr = real
     out.evaluations = len(cases) + out.extra.get('cmd_capture_runs_exercised_only', 0)
     bad = common.compare_with_model(ctx, PRE, cases)
     out.traces_validated = len(cases)
     for i, m in bad:
         out.mismatches.append(dict(case=str(cases[i]['desc']), impl=cases[i]['expected'], model=m))
     out.assumptions = ['byte-level behaviour of subprocess pipes / StringIO / decoding is exercised, not proved (partial)',
-                       'inspect.signature binding in _prepare_kwargs is an oracle']
-    out.extra['trusted_base'] = ['mapping of concrete Python return values to the tags of Model/Action.v (harness/c17.py py_representatives)']
+                       'inspect.signature binding in _prepare_kwargs is an oracle',
+                       'teardown actions whose own exception escapes, and the thread runner with a BaseException other than SystemExit/KeyboardInterrupt '
+                       '(its worker does not hand it over: the run never ends), are outside the model of a run']
+    out.extra['trusted_base'] = ['mapping of concrete Python return values / exceptions to the tags of Model/Action.v (harness/c17.py py_representatives, END_TAG)',
+                                 'the sequence of Enter/Write/Exit events a generated case stands for (harness/c17.py Sim)']
     return out
 
 
 def replay(ctx, payload):
-    print(payload)
-    return 0
+    """re-run the input of a recorded violation; exit 1 if it is still violated"""
+    common.use_repo()
+    case, shape = payload.get('case', {}), payload.get('shape', '')
+    print(payload.get('what'))
+    vs = None
+    if 'forest' in case:
+        vs = forest_violations(case['forest'], forest_case(case['forest']))
+    elif 'spec' in case and isinstance(case['spec'], dict) and 'tasks' in case['spec']:
+        spec = case['spec']
+        vs = task_violations(spec, run_case(spec, ctx.subdir('replay'), 'replay'), where='a run (%s)' % spec['route'], shape='run')
+    elif 'spec' in case and isinstance(case['spec'], dict) and 'acts' in case['spec']:
+        vs = task_violations(case['spec'], task_case(case['spec']))
+    elif 'representative' in case:
+        from doit.action import PythonAction
+        tag, fn = py_representatives()[case['representative']]
+        act = PythonAction(fn)
+        with Streams() as st:
+            try:
+                o = classify_ret(act.execute())
+            except BaseException as e:  # noqa
+                o = classify_exc(e)
+        want = {'RTrue': 0, 'RNone': 0, 'RStr': 0, 'RDict': 0, 'RFalse': 1, 'RTaskFailed': 1, 'RBaseExc': 3}.get(tag, 2)
+        wrote = tag in ('RRaises', 'RBaseExc')
+        vs = []
+        if o != want:
+            vs.append(dict(shape='py-classify:' + tag, what='outcome %s, documented %s' % (o, want), case={}))
+        if not st.restored():
+            vs.append(dict(shape='py-restore:' + tag, what='sys.stdout/sys.stderr are not the original objects after the action', case={}))
+        if wrote and (act.out, act.err) != (text(1), text(2)):
+            vs.append(dict(shape='py-capture:' + tag, what='self.out/self.err are %r, written %r' % ((act.out, act.err), (text(1), text(2))), case={}))
+    if vs is None:
+        print(payload)
+        return 0
+    for v in vs:
+        print('STILL VIOLATED [%s]: %s' % (v['shape'], v['what']))
+        for k in ('channel', 'observed', 'demanded'):
+            if k in v['case']:
+                print('   %s: %s' % (k, v['case'][k]))
+    if not vs:
+        print('not violated by %s' % common.REPO)
+    return 1 if vs else 0
